@@ -1,7 +1,8 @@
-\* C05 sanitisers as coded at the pin: TLC is EXPECTED to report OneDeclaration (known findings)
+\* C05 as coded at the pin: the regular, enum and property-name sanitisers keep OneDeclaration in both contexts (all lengths)
 CONSTANTS
-  Classes <- ClassesDef
+  Classes <- SafeClassesDef
   Contexts <- ContextsDef
+  Alphabet <- FullAlphabet
   RegularExtra <- NoExtra
   AngleGuard = TRUE
   FontFix = FALSE
